@@ -142,6 +142,27 @@ fn deep_inputs() -> Vec<(String, Vec<u8>)> {
         v.push((format!("anchored_flow_{d}"), format!("{}{}", (0..d).map(|i| format!("&a{i} [")).collect::<String>(), "]".repeat(d)).into_bytes()));
         v.push((format!("alias_in_deep_{d}"), format!("x: &x [1]\ny: {}*x{}", "[".repeat(d - 1), "]".repeat(d - 1)).into_bytes()));
     }
+    // use-site depth + target depth: every literally written nesting is below max_depth, the expansion is not
+    for (links, levels) in [(2usize, 1100usize), (8, 1900), (3, 700)] {
+        let mut t = String::new();
+        for i in 0..links {
+            t.push_str(&format!("l{i}: &l{i}\n  "));
+            t.push_str(&"- ".repeat(levels));
+            if i == 0 { t.push_str("x\n"); } else { t.push_str(&format!("*l{}\n", i - 1)); }
+        }
+        v.push((format!("alias_chain_{links}x{levels}"), t.into_bytes()));
+    }
+    // lines far longer than the snippet window, made of multi-byte characters, with the error at small and large columns
+    for w in ["é", "€", "😀", "aé", "é€😀a"] {
+        let n = 6000 / w.len() + 1;
+        v.push((format!("long_line_value_{w}"), format!("k: {}\n", w.repeat(n)).into_bytes()));
+        v.push((format!("long_line_unclosed_quote_{w}"), format!("k: \"{}\n", w.repeat(n)).into_bytes()));
+        v.push((format!("long_line_late_error_{w}"), format!("{}: {{ {}\n", w.repeat(n / 2), w.repeat(n / 2)).into_bytes()));
+        v.push((format!("long_line_late_bad_token_{w}"), format!("[{}, ]]\n", w.repeat(n)).into_bytes()));
+        for cut in [4090usize, 4095, 4096, 4097, 4100] {
+            v.push((format!("long_line_cut_{w}_{cut}"), format!("- {}{} : @x\n", "a".repeat(cut % 7), w.repeat(cut / w.chars().count().max(1))).into_bytes()));
+        }
+    }
     v.push(("wide_seq".into(), format!("[{}]", vec!["1"; 100_000].join(",")).into_bytes()));
     v.push(("long_scalar".into(), "a".repeat(1_000_000).into_bytes()));
     v.push(("many_docs".into(), "---\na\n".repeat(1100).into_bytes()));
